@@ -6,12 +6,23 @@
     real operands.  Sym-vs-double agreement and direct lazy-vs-eager execution on seeded doubles are part of the tie.
 (b) engine H: Gallina model of the fixed-size indexing policies (vector, row-major matrix with stride, cartesian
     product), theorems for all sizes/strides (injective, image inside/minimal size); correspondence: getIndex and
-    getUnderlyingArrayMinimalSize of the real policies, evaluated for a family of instantiations, against the model."""
+    getUnderlyingArrayMinimalSize of the real policies, evaluated for a family of instantiations, against the model.
+(b') views: Gallina model of View / CoalescedView / StridedCoalescedView and of tmatrix::row_view / column_view /
+    submatrix_view (origin + index map), theorems for all sizes/offsets/strides (injective, image = the intended cells,
+    read = the cell, write changes exactly the cell); correspondence: the REAL views are instantiated over tagged storage
+    (cell k holds k) for every shape with sizes 1..4 and every I,J,K (const and non-const overloads), and over an external
+    buffer; every value read and every address changed by a write is compared with the model (vm_compute).
+    The generated programs of (a) use views as operands and as destinations.
+(c) aliasing: Gallina model of the element-wise in-order assignment vs eager evaluation, theorem (equal iff no cell written
+    earlier is read later; own-index aliasing is the special case); generated programs whose destination aliases operands
+    (same layout, and overlapping views satisfying the condition) are traced and proved equal to the eager code like the
+    others; two programs violating the condition are run to observe that the real code then follows the lazy model."""
 import os, re, sys
 from concurrent.futures import ThreadPoolExecutor
 from vlib import guarded_main
 sys.path.insert(0, os.path.dirname(os.path.abspath(__file__)))
 import gen
+import views
 
 SUPPORT = ["src/Exception/ContractViolation.cxx"]
 PINNED_KEY = "FixedSizeRowMajorMatrixIndexingPolicy::getUnderlyingArrayMinimalSize:rows<cols"
@@ -35,16 +46,156 @@ def index_tu(mats, vecs, carts):
     return "\n".join(L) + "\n"
 
 
+
+CXX_NAME = {"ROW": "tmatrix<{0},{1},double>::row_view<{2}>()", "ROWS": "tmatrix<{0},{1},double>::row_view<{2},{3},{4}>()",
+            "COL": "tmatrix<{0},{1},double>::column_view<{2}>()", "COLS": "tmatrix<{0},{1},double>::column_view<{2},{3},{4}>()",
+            "SUB": "tmatrix<{0},{1},double>::submatrix_view<{2},{3},{4},{5}>()",
+            "EV": "View<tvector<{0}>, FixedSizeVectorIndexingPolicy<{0},{1}>> at buffer offset {2}",
+            "EM": "View<tmatrix<{0},{1}>, FixedSizeRowMajorMatrixIndexingPolicy<{0},{1},{2}>> at buffer offset {3}",
+            "CV": "CoalescedView<tvector<{0}>> with pointers base+{2}+(k*{1})%11", "CM": "CoalescedView<tmatrix<{0},{1}>> with pointers base+4+(k*{2})%11",
+            "CS": "CoalescedView<stensor<2>> with pointers base+1+(k*5)%11", "SV": "StridedCoalescedView<tvector<{0}>> (map_strided(base+{2}, {1}))",
+            "SM": "StridedCoalescedView<tmatrix<{0},{1}>> (map_strided(base+2, {2}))", "SS": "StridedCoalescedView<stensor<3>> (map_strided(base+1, 3))"}
+
+
+def view_name(tag):
+    t = tag.split()
+    return CXX_NAME[t[0]].format(*t[1:])
+
+
+def nat_rows(txt):
+    return [[int(re.sub(r"[()%Z\s]", "", x)) for x in r.split(";") if x.strip()] for r in re.findall(r"\[([^\[\]]*)\]", txt)]
+
+
+def model_evals(c, minst, einst, index_cases):
+    """ONE coqc run evaluating (vm_compute) the model side of every correspondence: the views of matrices, the views on
+    external memory, the indexing policies, the two aliasing demonstrations.  Returns a dict, or an error string."""
+    txt = views.GALLINA_HEADER
+    txt += "Eval vm_compute in [" + ";\n".join(i[3] for i in minst) + "].\n"
+    txt += "Eval vm_compute in [" + ";\n".join(i[2] for i in einst) + "].\n"
+    txt += "Eval vm_compute in [" + ";\n".join(index_cases) + "].\n"
+    txt += ALIAS_V
+    rc, o, e = c.coq_eval(["C17Spec.v", "C17Model.v", "C17Views.v", "C17Alias.v"], txt)
+    if rc != 0:
+        return "evaluation of the models failed: " + e[-400:]
+    parts = [p for p in re.split(r"\n\s+: list[^\n]*", o) if "=" in p]
+    if len(parts) != 4:
+        return "the model evaluation printed %d results instead of 4" % len(parts)
+    rows = [nat_rows(p[p.index("=") + 1:]) for p in parts]
+    expected = {}
+    for part, rr in ((minst, rows[0]), (einst, rows[1])):
+        if len(rr) != len(part):
+            return "the view model returned %d rows for %d cases" % (len(rr), len(part))
+        for i, r in zip(part, rr):
+            k = r.index(views.SEP)
+            expected[i[0]] = (r[:k], r[k + 1:])
+    return {"views": expected, "index": rows[2], "alias": rows[3]}
+
+
+def check_views(c, vexes, expected):
+    """run the view drivers (real code, tagged storage) and compare every line with the Gallina model"""
+    if isinstance(expected, str):
+        c.report("views:model-eval", expected, {}, False)
+        return 0
+    observed = {}
+    for exe in vexes:
+        rc, out, err = c.run([exe], timeout=300)
+        if rc != 0:
+            c.report("views:driver", "view driver failed (rc=%d): %s" % (rc, err[-300:]), {"stderr": err[-2000:]}, False)
+            return 0
+        for l in out.splitlines():
+            tag, cst, reads, writes = views.parse_line(l)
+            observed[(tag, cst)] = (reads, writes)
+    n = 0
+    groups = {}     # (family, const?, what) -> list of (tag, text, replay): one report per group, first case in full
+
+    def fail(tag, cst, cat, text, rep):
+        groups.setdefault((tag.split()[0], "const" if cst else "mutable", cat), []).append((tag, text, rep))
+
+    for tag, (mr, mw) in expected.items():
+        for cst in (0, 1):
+            if (tag, cst) not in observed:
+                c.report("view:%s:missing" % tag, "no output of the driver for %s" % view_name(tag), {}, False)
+                continue
+            reads, writes = observed[(tag, cst)]
+            n += 1
+            name = view_name(tag) + (" const" if cst else "")
+            c.count(len(mr), ("view", tag, cst), True)
+            bad = [r for r in reads if r.endswith("!")]
+            vals = [int(r.rstrip("!")) for r in reads]
+            rep = {"view": name, "storage": "cell k holds the value k (row-major address i*M+j in the matrix; negative / beyond the size: guard areas)",
+                   "values_read_in_index_order": vals, "model_addresses": mr}
+            if vals != mr:
+                fail(tag, cst, "read", "%s over tagged storage reads the cells %s, the intended cells (model) are %s" % (name, vals, mr), rep)
+            elif bad:
+                fail(tag, cst, "paren", "%s: operator() and operator[] disagree" % name, rep)
+            elif len(set(vals)) != len(vals):
+                fail(tag, cst, "inj", "%s addresses a cell twice: %s" % (name, vals), rep)
+            if not cst:
+                wr = [[int(x) for x in w.split(",")] if w != "-" else [] for w in writes]
+                if wr != [[a] for a in mw]:
+                    rep = dict(rep, cells_changed_by_a_write_through_element_k=wr)
+                    fail(tag, cst, "write", "writing through element k of %s changes the cells %s, the model says exactly %s" % (name, wr, mw), rep)
+    for (fam, cq, cat), lst in sorted(groups.items()):
+        inside = [x for x in lst if all(0 <= v < 100 for v in x[2]["values_read_in_index_order"])]     # prefer a case that stays inside the storage
+        first = (inside or lst)[-1]
+        tag, text, rep = first
+        rep = dict(rep, failing_instantiations=len(lst), other_failing_instantiations=[view_name(t[0]) for t in lst if t is not first][:60])
+        c.report("view-%s:%s:%s" % (cat, fam, cq), text + (" (and %d other instantiations of the same view family, listed in the replay)" % (len(lst) - 1) if len(lst) > 1 else ""), rep, True)
+    return n
+
+
+# (c) outside the condition of the theorem: the destination is read at a LATER index than the one that wrote it
+ALIAS_TU = r"""
+#include <cstdio>
+#include "TFEL/Math/tvector.hxx"
+#include "TFEL/Math/tmatrix.hxx"
+using namespace tfel::math;
+int main() {
+  { tvector<3u, double> v{1, 2, 3}; tmatrix<3u, 3u, double> m; const double mv[9] = {-2, 0, 3, -3, 2, -1, 1, -2, 0};
+    for (unsigned short i = 0; i < 3; ++i) for (unsigned short j = 0; j < 3; ++j) m(i, j) = mv[3 * i + j];
+    v = m * v; std::printf("MV %g %g %g\n", v[0], v[1], v[2]); }
+  { tmatrix<1u, 4u, double> m; for (unsigned short j = 0; j < 4; ++j) m(0, j) = 10 + j;
+    m.template row_view<0, 1, 3>() = m.template row_view<0, 0, 3>();
+    std::printf("SHIFT %g %g %g %g\n", m(0, 0), m(0, 1), m(0, 2), m(0, 3)); }
+  return 0;
+}
+"""
+ALIAS_V = """From Coq Require Import ZArith List.
+From C17 Require Import C17Spec C17Model C17Views C17Alias.
+Import ListNotations.
+Definition mrow (k : nat) : list Z := nth k [[-2; 0; 3]; [-3; 2; -1]; [1; -2; 0]]%Z [].
+Definition st0 : store Z := fun a => nth a [1; 2; 3]%Z 0%Z.
+Definition emv (k : nat) (st : store Z) : Z := fold_right Z.add 0%Z (map (fun p => (fst p * st (snd p))%Z) (combine (mrow k) [0; 1; 2])).
+Definition sh0 : store Z := fun a => (10 + Z.of_nat a)%Z.
+Definition row013 := row_slice 4 0 1 3.
+Definition esh (k : nat) (st : store Z) : Z := vread st (row_slice 4 0 0 3) k.
+Eval vm_compute in [map (assign_lazy 3 (fun k => k) emv st0) [0; 1; 2]; map (assign_eager 3 (fun k => k) emv st0) [0; 1; 2];
+                    map (assign_lazy 3 (vaddr row013) esh sh0) [0; 1; 2; 3]; map (assign_eager 3 (vaddr row013) esh sh0) [0; 1; 2; 3]].
+"""
+
+
+def check_alias_model(c, aexe, rows):
+    rc, out, err = c.run([aexe])
+    if rc != 0 or len(rows) != 4:
+        c.notes.append("aliasing demonstration not run (driver rc=%d): %s" % (rc, err[-300:]))
+        return
+    real = {l.split()[0]: [int(float(x)) for x in l.split()[1:]] for l in out.splitlines()}
+    for name, lz, eg, what in (("MV", rows[0], rows[1], "v = m * v"), ("SHIFT", rows[2], rows[3], "m.row_view<0,1,3>() = m.row_view<0,0,3>()")):
+        c.count(1, ("alias-demo", name), True)
+        c.notes.append("aliasing outside the condition of the theorem, `%s`: real code %s; model: in-order lazy %s, eager %s -> the real code %s"
+                       % (what, real.get(name), lz, eg,
+                          "follows the lazy in-order model" if real.get(name) == lz else
+                          ("equals the eager result (evaluation order differs from the model; own-index aliasing is unaffected)" if real.get(name) == eg else "matches neither")))
+
+
 def main(c):
     rng = c.rng
     nprog = c.pick(15, 60)
-    progs = []
-    for k in range(nprog):
-        kind = "VMSTD"[k % 5]
-        progs.append((kind, gen.gen_expr(rng, kind, 3 if k % 2 else 4)))
+    progs = [gen.gen_program(rng, k, "VMSTD"[k % 5]) for k in range(nprog)]
     wd = os.path.join(c.work, "coq")
     os.makedirs(wd, exist_ok=True)
-    chunks = [list(range(i, min(i + 20, nprog))) for i in range(0, nprog, 20)]
+    csz = c.pick(8, 15)
+    chunks = [list(range(i, min(i + csz, nprog))) for i in range(0, nprog, csz)]
     tus = []
     for ci, ch in enumerate(chunks):
         p = os.path.join(c.work, "programs_%d.cxx" % ci)
@@ -55,17 +206,42 @@ def main(c):
     carts = [(n1, n, m, s) for n1 in (1, 2, 3) for (n, m, s) in [(2, 2, 2), (2, 3, 3), (3, 2, 4), (2, 3, 4), (1, 3, 5), (3, 3, 4), (2, 4, 5)]]
     itu = os.path.join(c.work, "indices.cxx")
     open(itu, "w").write(index_tu(mats, vecs, carts))
+    # view drivers: every view of tmatrix<N,M>, N,M = 1..4 (4 translation units), views on an external buffer (2)
+    minst = views.matrix_instances()
+    einst = views.external_instances()
+    vtus = []
+    for q in range(4):
+        pth = os.path.join(c.work, "mviews_%d.cxx" % q)
+        open(pth, "w").write(views.matrix_tu(minst[q::4]))
+        vtus.append(pth)
+    for q in range(2):
+        pth = os.path.join(c.work, "eviews_%d.cxx" % q)
+        open(pth, "w").write(views.external_tu(einst[q::2]))
+        vtus.append(pth)
+    atu = os.path.join(c.work, "alias.cxx")
+    open(atu, "w").write(ALIAS_TU)
     with ThreadPoolExecutor(max_workers=4) as ex:
         fts = [ex.submit(lambda p=p, i=i: c.cxx("programs_%d" % i, [p], SUPPORT, opt="-O0")) for i, p in enumerate(tus)]
+        fvs = [ex.submit(lambda p=p, i=i: c.cxx("views_%d" % i, [p], SUPPORT, opt="-O0")) for i, p in enumerate(vtus)]
         fi = ex.submit(lambda: c.cxx("indices", [itu], SUPPORT, opt="-O0"))
+        fa = ex.submit(lambda: c.cxx("alias", [atu], SUPPORT, opt="-O0"))
+        # the model side of the correspondence (vm_compute) runs meanwhile, in one thread (shared .vo files)
+        ev = ["(mat_minsize %d %d %d :: mat_minsize_pinned %d %d %d :: flat_map (fun i => map (mat_index %d i) (seq 0 %d)) (seq 0 %d))" % (n, m, s_, n, m, s_, s_, m, n) for (n, m, s_) in mats]
+        ev += ["(vec_minsize %d %d :: 0 :: map (vec_index %d) (seq 0 %d))" % (n, s_, s_, n) for (n, s_) in vecs]
+        # the model side of every correspondence (vm_compute) runs meanwhile, in one coqc
+        fm = ex.submit(model_evals, c, minst, einst, ev)
         exes = [f.result() for f in fts]
+        vexes = [f.result() for f in fvs]
         iexe = fi.result()
+        aexe = fa.result()
+        model = fm.result()
     c.log("built")
     c.trusted("engine S tracer (cxx/sym/sym.hxx, symtfel.hxx trait glue), g++ instantiation of the TFEL expression templates with Sym",
               "props/C17/gen.py: one tree printed as the TFEL expression and as naive component code",
               "agreement of the traced terms with the double instantiation on seeded inputs (tolerance 6.4e-10 scaled)")
     # ---- (a) trace
     gens = []
+    nbad = {}
     for ci, (exe, ch) in enumerate(zip(exes, chunks)):
         g = os.path.join(wd, "C17_gen_%d.v" % ci)
         rc, out, err = c.run([exe, g, str(c.seed % 100000)])
@@ -83,12 +259,17 @@ def main(c):
                 k = ch[int(t[1])]
                 c.count(1, ("exec", k, t[2], t[3]), True)
                 if t[0] != "AGREE":
-                    kind, e = progs[k]
-                    what = ("lazy evaluation of `%s` (%s) differs from the naive component code on component %s: lazy=%s eager=%s" % (gen.lazy(e), gen.KINDS[kind][0], t[2], t[4], t[5])
+                    nbad[k] = nbad.get(k, 0) + 1
+                    if nbad[k] > 1:     # one report per program (its first failing element)
+                        continue
+                    kind = progs[k][0]
+                    desc = gen.describe(progs[k])
+                    what = ("lazy evaluation of `%s` (%s, %s) differs from the naive component code on observed element %s: lazy=%s eager=%s" % (desc, gen.KINDS[kind][0], progs[k][3], t[2], t[4], t[5])
                             if t[0] == "EXEC-FAIL" else
-                            "traced term and double instantiation of `%s` disagree on component %s: Sym=%s double=%s" % (gen.lazy(e), t[2], t[3], t[4]))
-                    c.report("%s:%s:%s" % (t[0], gen.lazy(e)[:100], t[2]), what,
-                             {"program": gen.lazy(e), "type": gen.KINDS[kind][0], "component": int(t[2]), "inputs(x0,x1,v..,m..,s..,t..,d..)": inputs.get(int(t[1]))}, True)
+                            "traced term and double instantiation of `%s` disagree on element %s: Sym=%s double=%s" % (desc, t[2], t[3], t[4]))
+                    c.report("%s:%s:%s" % (t[0], desc[:100], t[2]), what,
+                             {"program": desc, "type": gen.KINDS[kind][0], "mode": progs[k][3], "element": int(t[2]),
+                              "inputs(x0,x1,v..,m..,s..,t..,d..,q..,buf..)": inputs.get(int(t[1]))}, True)
         # rename the module of this chunk
         txt = open(g).read()
         for j, k in enumerate(ch):
@@ -101,8 +282,8 @@ def main(c):
     ptxt = re.sub(r"\b(lazy|eager)_(\d+)\b", r"\1_p\2", ptxt)
     ptxt = ptxt.replace("From C17 Require Import C17_gen.", "From C17 Require Import %s." % " ".join("C17_gen_%d" % i for i in range(len(gens))))
     open(pf, "w").write(ptxt)
-    for k, (kind, e) in enumerate(progs[:6]):
-        c.sample({"program": gen.lazy(e)[:200], "type": gen.KINDS[kind][0]})
+    for pr in progs[:3] + progs[5:8] + progs[10:13]:
+        c.sample({"program": gen.describe(pr)[:240], "type": gen.KINDS[pr[0]][0], "mode": pr[3]})
     c.log("traced")
     # ---- (b) indices of the real policies
     rc, out, err = c.run([iexe])
@@ -110,20 +291,10 @@ def main(c):
         c.report("indices", "index driver failed: " + err[-300:], {}, False)
         return
     rows = [l.split() for l in out.splitlines()]
-    ev = []
-    for t in rows:
-        if t[0] == "MAT":
-            n, m, s = int(t[1]), int(t[2]), int(t[3])
-            ev.append("(mat_minsize %d %d %d :: mat_minsize_pinned %d %d %d :: flat_map (fun i => map (mat_index %d i) (seq 0 %d)) (seq 0 %d))" % (n, m, s, n, m, s, s, m, n))
-        elif t[0] == "VEC":
-            n, s = int(t[1]), int(t[2])
-            ev.append("(vec_minsize %d %d :: 0 :: map (vec_index %d) (seq 0 %d))" % (n, s, s, n))
-    txt = ("From Coq Require Import Arith List.\nFrom C17 Require Import C17Spec C17Model.\nImport ListNotations.\nEval vm_compute in [" + ";\n".join(ev) + "].\n")
-    rc, o, e = c.coq_eval(["C17Spec.v", "C17Model.v"], txt)
-    if rc != 0:
-        c.report("model-eval", "evaluation of the index model failed: " + e[-400:], {}, False)
+    if isinstance(model, str):
+        c.report("model-eval", model, {}, False)
         return
-    mrows = [[int(x) for x in r.split(";") if x.strip()] for r in re.findall(r"\[([^\[\]]*)\]", o[o.index("=") + 1:o.rindex(":")])]
+    mrows = model["index"]
     mi = 0
     for t in rows:
         if t[0] in ("MAT", "VEC"):
@@ -168,24 +339,42 @@ def main(c):
                 else:
                     c.report("cart:%s" % desc, what, rep, True)
     c.log("indices compared")
-    # ---- proofs
-    res = c.coq(gens + [pf, "C17Spec.v", "C17Model.v", "C17Proofs.v", "Properties_C17.v"], timeout=1200)
-    c.coverage["traces_validated_against_impl"] = nprog + len(rows)
+    # ---- (b') the real views over tagged storage against the model
+    nviews = check_views(c, vexes, model["views"])
+    c.log("views compared")
+    # ---- (c) two programs OUTSIDE the condition of the aliasing theorem: the real code follows the lazy model
+    check_alias_model(c, aexe, model["alias"])
+    # ---- proofs: the per-program theorems and the fixed development are independent, two coqc chains in parallel
+    with ThreadPoolExecutor(max_workers=2) as ex:
+        f1 = ex.submit(c.coq, gens + [pf], 1200)
+        f2 = ex.submit(c.coq, ["C17Spec.v", "C17Model.v", "C17Proofs.v", "Properties_C17.v",
+                               "C17Views.v", "C17Alias.v", "C17ViewsProofs.v", "C17AliasProofs.v", "Properties_C17_views.v"], 1200)
+        results = [f1.result(), f2.result()]
+
+    class Res:
+        pass
+    res = Res()
+    res.ok = all(r.ok for r in results)
+    res.failed = [f for r in results for f in r.failed]
+    c.coverage["obligations"] = sum(len(r.theorems) for r in results)
+    c.coverage["discharged"] = sum(len(r.discharged) for r in results)
+    c.coverage["checker_cmd"] = "coqc -Q coq/lib VLib -R <scratch> C17 <files: %s> (Coq 8.16.1, full .vo compilation)" % " ".join(f[0] for r in results for f in r.files)
+    c.coverage["traces_validated_against_impl"] = nprog + len(rows) + nviews
     c.coverage["rule"] = ("(a) %d seeded expression programs (depth <= 4; tvector<3>, tmatrix<3,3>, stensor<3>, tensor<3>, st2tost2<3>; + - neg, scalar * and /, "
                           "M*v, D*s, M*M), each traced lazily and eagerly and proved equal component-wise; 3 seeded double evaluations per program; "
-                          "(b) %d matrix, %d vector, %d cartesian-product policy instantiations: every index against the model, injectivity, image within the declared size" % (
-                              nprog, len(mats), len(vecs), len(carts)))
+                          "(b) %d matrix, %d vector, %d cartesian-product policy instantiations: every index against the model, injectivity, image within the declared size; "
+                          "(b') %d view instantiations of tmatrix<N,M> (N,M = 1..4; row_view<I>, row_view<I,J,K>, column_view<I>, column_view<I,J,K>, submatrix_view<I,J,R,C>, all offsets) "
+                          "and %d views on an external buffer (View with strided vector / row-major policies, CoalescedView, StridedCoalescedView), each const and non-const, "
+                          "over tagged storage: every read and every write against the model; programs: %s" % (
+                              nprog, len(mats), len(vecs), len(carts), len(minst), len(einst),
+                              {m: sum(1 for p in progs if p[3] == m) for m in ("plain", "viewdst", "alias")}))
     if not res.ok:
         if c.violations and any(v[3] for v in c.violations):
             c.notes.append("proof obligations failed: %s; concrete failing inputs reported above" % [f[2] for f in res.failed])
         else:
-            def search(fail):
-                m = re.match(r"C17_program_(\d+)", fail[2] or "")
-                if m:
-                    kind, e = progs[int(m.group(1))]
-                    return None
-                return None
-            c.coq_failures(res, search)
+            for r in results:
+                if not r.ok:
+                    c.coq_failures(r, None)
 
 
 guarded_main("C17", main)
